@@ -178,13 +178,14 @@ Proof.
   set (st := fold_left (step_state f) l (None, [])) in *.
   assert (RT' := read_instr_mono f (t0 :: tb) _ _ rest ltac:(discriminate) RT). cbn [app] in RT'.
   destruct k as [|k']; [lia|].
-  cbn [read_loop]. rewrite RT'. cbn [obind fst snd].
   destruct He as [->|[-> ->]].
-  - destruct (Z.ltb_spec (start + size_seq f l) (start + size_seq f l + Z.of_nat (length (t0 :: tb)))); [|cbn [length] in *; lia].
-    rewrite Hts. cbn [read_loop].
+  - cbn [read_loop app].
+    destruct (Z.ltb_spec (start + size_seq f l) (start + size_seq f l + Z.of_nat (length (t0 :: tb)))); [|cbn [length] in *; lia].
+    rewrite RT'. cbn [obind fst snd]. rewrite Hts.
     destruct (Z.ltb_spec (start + size_seq f l + Z.of_nat (length (t0 :: tb))) (start + size_seq f l + Z.of_nat (length (t0 :: tb)))); [lia|].
     rewrite Z.eqb_refl. now rewrite Hflat.
-  - cbn [read_loop]. unfold read_instr. rewrite Heof. cbn [andb obind fst]. now rewrite Hflat.
+  - cbn [read_loop app]. rewrite RT'. cbn [obind fst snd read_loop]. unfold read_instr. rewrite Heof.
+    cbn [andb obind fst]. now rewrite Hflat.
 Qed.
 
 (* ---- (c) formats without end marker: the caller supplies the end offset --------------------- *)
